@@ -90,8 +90,9 @@ theorem input_facts (c : Ctx) (a : Bytes) (h : WF c) (ha : a ≠ []) (hf : c.pos
   rw [store_bufLen] at p2
   exact ⟨p1, p2, j, by rw [← t2]; exact hjl, by rw [hj, t2]⟩
 
-theorem input_split_R (hloc : ParseLocal) {G : Bytes → Prop} (hG : Good G) (c : Ctx) (h : WF c) (a b : Bytes)
-    (ha : a ≠ []) (hb : b ≠ []) (hfit : Fits c (a.length + b.length)) (hg : G (content c ++ a ++ b)) :
+theorem input_split_R {M G G1 : Bytes → Prop} (hloc : ParseLocalOn M) (hG : Good M G G1) (c : Ctx) (h : WF c) (a b : Bytes)
+    (ha : a ≠ []) (hb : b ≠ []) (hfit : Fits c (a.length + b.length)) (hg : G (content c ++ a ++ b))
+    (hg1 : G1 (content c ++ a)) :
     R (input (input c a) b) (input c (a ++ b)) := by
   unfold Fits at hfit
   have hab : a ++ b ≠ [] := by
@@ -109,7 +110,7 @@ theorem input_split_R (hloc : ParseLocal) {G : Bytes → Prop} (hG : Good G) (c 
   have hl1 : (content (store c a)).length = c.position + a.length := by
     rw [content_length _ (wf_pos_le t1), t3]
   have key := loop_split hloc hG _ (store c a) (store c (a ++ b)) b (c.position + a.length + 2)
-    (c.position + (a ++ b).length + 2) true true hq hc (by rw [u2, ← List.append_assoc]; exact hg) (Nat.le_refl _)
+    (c.position + (a ++ b).length + 2) true true hq hc (by rw [u2, ← List.append_assoc]; exact hg) (by rw [t2]; exact hg1) (Nat.le_refl _)
     (by omega) (by rw [hl1, List.length_append]; omega) (by rw [t3, store_bufLen]; omega)
   rw [input_eq c a ha hfa] at i1 ⊢
   rw [emit_position]
@@ -118,14 +119,14 @@ theorem input_split_R (hloc : ParseLocal) {G : Bytes → Prop} (hG : Good G) (c 
   exact R.emit k1 k2 _ _
 
 /-- every partition into non-empty chunks against the whole stream in one call -/
-theorem chunks_R (hloc : ParseLocal) {G : Bytes → Prop} (hG : Good G) : ∀ (cs : List Bytes) (c : Ctx), WF c →
-    cs ≠ [] → (∀ x ∈ cs, x ≠ []) → Fits c cs.flatten.length → G (content c ++ cs.flatten) →
+theorem chunks_R {M G G1 : Bytes → Prop} (hloc : ParseLocalOn M) (hG : Good M G G1) : ∀ (cs : List Bytes) (c : Ctx), WF c →
+    cs ≠ [] → (∀ x ∈ cs, x ≠ []) → Fits c cs.flatten.length → G (content c ++ cs.flatten) → (∀ x ∈ cs, G1 x) →
     R (cs.foldl input c) (input c cs.flatten) := by
   intro cs
   induction cs with
   | nil => intro c _ h; exact absurd rfl h
   | cons x rest ih =>
-    intro c h _ hne hfit hg
+    intro c h _ hne hfit hg hl1
     cases rest with
     | nil =>
       simp only [List.foldl_cons, List.foldl_nil, List.flatten_cons, List.flatten_nil, List.append_nil]
@@ -148,7 +149,9 @@ theorem chunks_R (hloc : ParseLocal) {G : Bytes → Prop} (hG : Good G) : ∀ (c
         (by unfold Fits; rw [i2]; omega)
         (by rw [i3, ← List.drop_append_of_le_length i4]
             exact hG.drop _ _ hg')
+        (fun z hz => hl1 z (by simp [hz]))
       have h2 := input_split_R hloc hG c h x (y :: rest).flatten hx hrne (by unfold Fits; omega) hg'
+        (hG.app1 _ x hx (hl1 x (by simp)))
       rw [hfl]
       exact h1.trans h2
 
